@@ -87,7 +87,10 @@ def main(argv=None):
             payload = {'rec': Recorder(pid).dump(), 'known': {},
                        'outcomes': [{'violation': None, 'harness_error': [None, traceback.format_exc()]}]}
         Path(args.shard_out).write_text(json.dumps(payload, default=repr))
-        return EXIT_OK
+        # the verdict is on disk: do not let worker threads leaked by the code under test block interpreter shutdown
+        sys.stdout.flush()
+        sys.stderr.flush()
+        os._exit(EXIT_OK)
 
     t0 = time.time()
     rec = Recorder(pid)
